@@ -228,3 +228,14 @@ def cfg_text(constants=None, init="Init", next_="Next", spec=None, invariants=()
 def read_json(path):
     with open(path) as fh:
         return json.load(fh)
+
+
+def run_many(jobs, max_parallel=None):
+    """jobs: list of dicts of run_tlc kwargs (each should set workers small). Returns results in order."""
+    from concurrent.futures import ThreadPoolExecutor
+
+    if max_parallel is None:
+        max_parallel = max(1, env.ncpu() // 2)
+    with ThreadPoolExecutor(max_workers=max_parallel) as ex:
+        futs = [ex.submit(run_tlc, **j) for j in jobs]
+        return [f.result() for f in futs]
